@@ -285,7 +285,7 @@ def run_case(case: dict[str, Any], wd: Path) -> dict[str, Any]:
     if len(subs) > 1:
         # the same rectangle once more, its upper limits counted from the far edge (negative limits, as documented)
         s1 = subs[1]
-        subs.append([s1[0], s1[1] - imax, s1[2], s1[3] - jmax])
+        subs.append([s1[0] - imax if case["idx"] % 2 else s1[0], s1[1] - imax, s1[2] - jmax if case["idx"] % 2 else s1[2], s1[3] - jmax])
     V: list = []
     sit: dict[str, int] = {}
     cnt: dict[str, int] = {}
